@@ -113,3 +113,14 @@ def cvxpy_affine(expr, variables):
                 v.value = s
             except Exception:  # noqa: BLE001
                 pass
+
+
+def snap(a, tol=1e-9):
+    """numeric array -> object array of exact small rationals (complex entries as Sym-compatible python complex of
+    Fractions is not available, so return (re, im) Fractions folded into symnp constants)"""
+    from symnp.core import Poly, Sym
+    a = np.asarray(a)
+    out = np.empty(a.shape, dtype=object)
+    for idx in np.ndindex(a.shape):
+        out[idx] = Sym(Poly.const(to_frac(np.real(a[idx]), tol)), Poly.const(to_frac(np.imag(a[idx]), tol)))
+    return out
